@@ -16,7 +16,31 @@ ASSUME = ["'the model pickle is the original with the injected call added' = byt
           "the state space of real models is sampled from a seeded generator (7 kinds), not enumerated"]
 
 
+def wrapper_table(ctx):
+    """beyond the property: PyTorchModelWrapper.validate_file_format as a decision table (spec/WrapperRel.tla); every
+    cell is replayed into the real method (identification stubbed with the cell's list); drift only, never an alarm"""
+    cells = tv.generate(ctx, "Wrapper", open(os.path.join(tlc.SPEC, "Wrapper.cfg")).read(), "CASE", workers=4, name="design+gen:Wrapper")
+    pj, outp = os.path.join(ctx.tmp, "wrapper_in.json"), os.path.join(ctx.tmp, "wrapper_out.json")
+    json.dump(cells, open(pj, "w"))
+    env = dict(os.environ, PYTHONPATH=os.pathsep.join([ROOT] + ([os.environ["VERIF_REPO"]] if os.environ.get("VERIF_REPO") else [])))
+    r = subprocess.run([sys.executable, "-m", "harness.wrapperchild", pj, outp], cwd=ROOT, env=env, capture_output=True, text=True, timeout=600)
+    if r.returncode != 0:
+        ctx.drift.append("wrapper table: the replay child failed: " + (r.stderr or r.stdout)[-200:].replace("\n", " "))
+        return
+    recs = json.load(open(outp))
+    verdicts = tv.validate(ctx, "WrapperTrace", recs)
+    bad = {}
+    for rec in recs:
+        v = verdicts[rec["id"]]["v"]
+        if v != "ok":
+            bad.setdefault(v, []).append(rec)
+    for v, rs in sorted(bad.items())[:5]:
+        ctx.drift.append(f"wrapper table: {v} [{len(rs)} cell(s), e.g. formats={rs[0]['fs']} force={rs[0]['force']}]")
+    ctx.notes.append(f"validate_file_format decision table (spec/WrapperRel.tla): {len(recs)} cells replayed into the real method, {sum(map(len, bad.values()))} disagree")
+
+
 def run(ctx):
+    wrapper_table(ctx)
     cases = tv.generate(ctx, "TorchZip", open(os.path.join(tlc.SPEC, "TorchZip.cfg")).read(), "CASE", workers=2, name="design+gen:TorchZip")
     scratch = tempfile.mkdtemp(prefix="verif_c16_")
     try:
